@@ -11,6 +11,7 @@ from . import restricted_generalized_time_from_datetime
 from .per import to_int
 from .per import to_byte_array
 from .per import integer_as_number_of_bits
+from .per import integer_as_number_of_bits_power_of_two
 from .per import PermittedAlphabet
 from .per import Type
 from .per import Boolean
@@ -106,11 +107,13 @@ class KnownMultiplierStringType(per.KnownMultiplierStringType):
                 length += decoder.read_non_negative_binary_integer(self.number_of_bits)
 
         data = bytearray()
+        orig_bits_per_character = integer_as_number_of_bits_power_of_two(
+            len(self.ALPHABET) - 1)
 
         for _ in range(length):
             value = decoder.read_non_negative_binary_integer(self.bits_per_character)
             value = self.permitted_alphabet.decode(value)
-            data += to_byte_array(value, self.bits_per_character)
+            data += to_byte_array(value, orig_bits_per_character)
 
         return data.decode(self.ENCODING)
 
